@@ -261,6 +261,10 @@ def coerce(v, t, e):
         e = ENVS["e"][e[1]]
     if e == "reserved":
         return None
+    if e == "blobref":
+        # host restriction of a BORROWED byte slice (native_standin only): it is a window of the input, so the wire value must
+        # be a blob itself; any other vector does not coerce element by element into it
+        return v if (not isinstance(t, str) and t[0] == "vec" and t[1] == "nat8") else FAIL
     if not isinstance(e, str) and e[0] == "opt":
         if t == "null" or t == "reserved":
             return None
